@@ -6,7 +6,7 @@ import importlib
 
 
 def load_contracts():
-    for m in ["der", "util", "ellipticcurve", "ecdsa_", "keys", "rfc6979"]:
+    for m in ["der", "util", "ellipticcurve", "ecdsa_", "keys", "rfc6979", "numbertheory"]:
         importlib.import_module("contracts." + m)
     import spec.der
 
